@@ -68,11 +68,33 @@ def norm_bool(term, pol):
     return ("bool", (t,), pol)
 
 
-def guard_atoms(body, bb, prog=None, assume=()):
+def guard_atoms(body, bb, prog=None, assume=(), _depth=0):
     """normalised atoms of all switch edges dominating block bb"""
     out = []
     for (s, vals, dterm, dty) in body.guards_of(bb, assume):
-        out.extend(_edge_atoms(body, s, vals, dterm, dty, prog))
+        for a in _edge_atoms(body, s, vals, dterm, dty, prog):
+            out.append(a)
+            # `matches!(x, P)` / `let b = match ..` lower to a bool local assigned constants in the arms:
+            # the atom bool(local)=pol then implies the guards of the unique block assigning `pol`
+            if a[0] == "bool" and isinstance(a[1][0], tuple) and a[1][0][0] == "local" and _depth < 3:
+                l = a[1][0][1]
+                defs = body.defs().get(l, [])
+                blocks = []
+                allconst = bool(defs)
+                for d in defs:
+                    if d[0] != "stmt":
+                        allconst = False
+                        break
+                    t = body.rvalue_term(d[3]["rv"])
+                    if not (isinstance(t, tuple) and t[0] == "const" and t[1] == "bool"):
+                        allconst = False
+                        break
+                    if bool(t[2]) == a[2]:
+                        blocks.append(d[1])
+                if allconst and len(blocks) == 1 and blocks[0] != bb:
+                    for x in guard_atoms(body, blocks[0], prog, (), _depth + 1):
+                        if x not in out:
+                            out.append(x)
     return out
 
 
